@@ -92,6 +92,28 @@ theorem closeFile_GF (fs0 : FS) : Triple (GF fs0) closeFile (fun _ => GF fs0) (f
   obtain ⟨s, _, rfl⟩ := List.mem_map.1 ha
   exact closeStep_GF fs0 s
 
+/-- `_close_file` never touches the directory, whatever fails -/
+theorem closeFile_fs (fs0 : FS) :
+    Triple (fun w => w.fs = fs0) closeFile (fun _ w => w.fs = fs0) (fun w => w.fs = fs0) := by
+  unfold closeFile
+  refine Triple.seqM _ (fun a ha => ?_)
+  obtain ⟨s, _, rfl⟩ := List.mem_map.1 ha
+  have hI := insens_fs (· = fs0)
+  cases s with
+  | bindFile => exact Triple.unit
+  | resetPath => exact Triple.unit
+  | resetIno => exact Triple.unit
+  | resetFile => exact modW_spec _ (fun w h => h)
+  | resetDev => exact modW_spec _ (fun w h => h)
+  | flush =>
+    unfold closeStep
+    refine Triple.bindGet (fun a => Triple.pre ?_ (fun w h => h.2))
+    exact Triple.seq (tick_spec hI _) (Triple.ite (fun _ => Triple.throw _) (fun _ => Triple.unit))
+  | close =>
+    unfold closeStep
+    refine Triple.bindGet (fun a => Triple.pre ?_ (fun w h => h.2))
+    exact Triple.seq (modW_spec _ (fun w h => h)) (Triple.seq (tick_spec hI _) (modW_spec _ (fun w h => h)))
+
 /-- `_create_file(n)` without faults: the sink holds `n`, which exists -/
 theorem createFile_there (cfg : Cfg) (n : Name) :
     Triple Good (createFile cfg n) (fun _ w => Good w ∧ w.cur = some n ∧ w.fs.has n = true) (fun _ => False) := by
@@ -285,7 +307,7 @@ theorem finishOld_good (cfg : Cfg) (o : Orc) (q : Name) (hret : cfg.hasRet = fal
   · unfold whenM
     refine Triple.ite (fun hr => ?_) (fun _ => Triple.unit)
     rcases hret with h | h
-    · rw [h] at hr; cases hr
+    · simp [Gen.termRetainTest, h] at hr
     · exact retention_good cfg _ h
 
 /-- a due rotation without faults: from a state whose open file exists, `_terminate_file(is_rotating=True)`
@@ -297,12 +319,13 @@ theorem terminate_good (cfg : Cfg) (o : Orc) (hret : cfg.hasRet = false ∨ noDe
   refine Triple.bindGet (fun w0 => ?_)
   refine Triple.withPre ?_
   rintro w ⟨rfl, hg, p, hcur, hp⟩
-  simp only [hcur, Option.isSome_some, whenM, ↓reduceIte, Bool.true_or]
+  simp only [hcur, Option.isSome_some, whenM, Gen.termCloseTest, Gen.termFinishTest, Gen.termRecreateTest, ↓reduceIte,
+    Bool.true_or]
   refine Triple.pre (P := GF w.fs) ?_ (fun w' h' => by rw [h']; exact ⟨hg.1, hg.2, rfl⟩)
   refine Triple.seq (closeFile_GF w.fs) ?_
   refine Triple.bind (Q := fun old w' => Good w' ∧ ∃ q, old = some q ∧ w'.fs.has q = true) ?_ (fun old => ?_)
   · unfold rotatePrep
-    simp only [↓reduceIte]
+    simp only [Gen.termPrepTest, ↓reduceIte]
     refine Triple.seq ?_ (renameSame_GF o _ p w.fs hp)
     unfold mkdirs
     exact tick_GF _ _
